@@ -6,7 +6,7 @@ CONSTANTS
   FilterStrs <- FilterCustom
   AssignSpecs <- AssignCustom
   MaxSteps = 3
-  DirectCalls = TRUE
+  DirectCalls = FALSE
 CONSTRAINT Bound
 ACTION_CONSTRAINT Dump
 INVARIANT DumpInit
